@@ -173,32 +173,43 @@ fn gen_c07o(rng: &mut Rng, tier: Tier, n: usize) -> Vec<String> {
 
 // ------------------------------------------------------------------ c09_otlp
 
-fn sample(otlp: &emit_otlp::Otlp) -> (Option<u64>, Option<u64>) {
+/// (queue_length, queue_full_truncated) per signal, as reported by `Otlp::metric_source()`
+fn sample(otlp: &emit_otlp::Otlp) -> [(Option<u64>, Option<u64>); 3] {
     use emit::metric::Source;
-    use emit::Props;
-    let len = std::cell::Cell::new(None);
-    let trunc = std::cell::Cell::new(None);
+    let cells: [(std::cell::Cell<Option<u64>>, std::cell::Cell<Option<u64>>); 3] = Default::default();
     otlp.metric_source().sample_metrics(emit::metric::sampler::from_fn(|m| {
         let v = m.value().by_ref().cast::<u64>();
-        if std::env::var("E2E_DEBUG").is_ok() { eprintln!("metric {} = {:?} / {}", m.name(), v, m.value()); }
-        match m.name().get() {
-            "otlp_logs_queue_length" => len.set(v),
-            "otlp_logs_queue_full_truncated" => trunc.set(v),
-            _ => {}
+        let name = m.name().get().to_string();
+        for (i, sig) in ["logs", "traces", "metrics"].iter().enumerate() {
+            if name == format!("otlp_{}_queue_length", sig) {
+                cells[i].0.set(v);
+            }
+            if name == format!("otlp_{}_queue_full_truncated", sig) {
+                cells[i].1.set(v);
+            }
         }
-        let _ = m.props().get("x");
     }));
-    (len.get(), trunc.get())
+    [
+        (cells[0].0.get(), cells[0].1.get()),
+        (cells[1].0.get(), cells[1].1.get()),
+        (cells[2].0.get(), cells[2].1.get()),
+    ]
 }
 
 fn run_c09o(line: &str) -> String {
     (|| -> Option<String> {
         let s = Sexp::parse(line)?;
         let (tag, a) = s.as_tagged()?;
-        if tag != "c09o" || a.len() != 1 {
+        if tag != "c09o" || a.len() != 2 {
             return None;
         }
         let n = a[0].as_usize()?;
+        let sig = match a[1].as_atom()? {
+            "logs" => 0usize,
+            "traces" => 1,
+            "metrics" => 2,
+            _ => return None,
+        };
         if n > 60_000 {
             return None;
         }
@@ -206,32 +217,43 @@ fn run_c09o(line: &str) -> String {
         emit_otlp::verif::set_max_request_size(usize::MAX);
         emit_otlp::verif::set_request_timeout(LONG);
         emit_otlp::verif::set_wait_divisor(1);
-        // park the worker on a primer request so that everything emitted afterwards stays queued
+        // all three signals configured; every worker is parked on a primer request so that everything emitted
+        // afterwards stays queued
         c.reset(HashMap::new(), true);
         let otlp = emit_otlp::new()
             .resource([("service.name", "e2e")])
             .logs(emit_otlp::logs_proto(emit_otlp::http(c.http_url(Signal::Logs))))
+            .traces(emit_otlp::traces_proto(emit_otlp::http(c.http_url(Signal::Traces))))
+            .metrics(emit_otlp::metrics_proto(emit_otlp::http(c.http_url(Signal::Metrics))))
             .spawn();
-        emit_kind(&otlp, 0, -1);
-        if !c.wait_holding(1, LONG) {
+        for i in 0..3 {
+            emit_kind(&otlp, i, -1 - i as i64);
+        }
+        if !c.wait_holding(3, LONG) {
             c.release();
             return Some("harness-error:not-parked".into());
         }
-        let (_, t0) = sample(&otlp);
+        let before = sample(&otlp);
         let mut max_len = 0;
         for i in 0..n {
-            emit_kind(&otlp, 0, i as i64);
+            emit_kind(&otlp, sig, i as i64);
             if i % 997 == 0 || i + 1 == n {
-                if let (Some(l), _) = sample(&otlp) {
+                if let (Some(l), _) = sample(&otlp)[sig] {
                     max_len = max_len.max(l);
                 }
             }
         }
-        let (len, t1) = sample(&otlp);
+        let after = sample(&otlp);
         c.release();
         let _ = otlp.blocking_flush(LONG);
         drop(otlp);
-        let out = format!("len={} trunc={}", len?, t1? - t0?);
+        let mut others_quiet = true;
+        for i in 0..3 {
+            if i != sig && (after[i].0? != 0 || after[i].1? != before[i].1?) {
+                others_quiet = false;
+            }
+        }
+        let out = format!("len={} trunc={} others-quiet={}", after[sig].0?, after[sig].1? - before[sig].1?, others_quiet);
         Some(if max_len <= 10_000 { out } else { format!("{}\tFAIL:queue_length={}-exceeds-capacity-10000", out, max_len) })
     })()
     .unwrap_or_else(|| "bad-case".into())
@@ -243,5 +265,6 @@ fn gen_c09o(rng: &mut Rng, tier: Tier, _n: usize) -> Vec<String> {
     for _ in 0..extra {
         ns.push(rng.range(10_001, 45_000));
     }
-    ns.iter().map(|n| format!("(c09o {})", n)).collect()
+    const SIGS: [&str; 3] = ["logs", "traces", "metrics"];
+    ns.iter().enumerate().map(|(i, n)| format!("(c09o {} {})", n, SIGS[i % 3])).collect()
 }
